@@ -5,6 +5,12 @@ from /repo on every run) + Bridge/PluginRef.lean.
 Correspondence: real `PluginRef` comparisons / `PluginGroup` version tables / entry point
 name conversion vs. the model driver `drv_plg`.
 Oracle (real code only): order axioms, hash consistency, supports, sortedness, resolve = max.
+
+Histories: references are obtained in every way the library offers (constructor, copy,
+copy(update=...), deepcopy, pickle, parse_obj/parse_raw, construct, group subclasses) from
+originals that were hashed / compared / used as keys before; version tables are queried
+(versions / resolve / get / [] / in / keys) before, between and after registrations through
+both registration paths on one group object.
 """
 import itertools
 
@@ -20,7 +26,7 @@ LEAN = dict(
         "eq_iff_same", "hash_consistent", "operators_are_lex", "le_refl", "le_antisymm", "le_trans",
         "le_total", "lt_irrefl", "lt_iff_le_not_eq", "gt_iff_lt_swap", "ge_iff_le_swap", "trichotomy",
         "supports_iff", "versions_sorted_all", "versions_order_independent", "resolve_spec",
-        "resolve_none_iff", "resolve_latest", "epname_roundtrip", "qualname_has_no_separator",
+        "resolve_none_iff", "resolve_latest", "keys_lists_registered", "keys_of_name", "contains_iff", "get_is_resolve", "epname_roundtrip", "qualname_has_no_separator",
         "legacy_lt_not_irreflexive", "marked_base_refused"]]
     + ["MetadorModel.Bridge.PluginRef." + n for n in ["gen_eq", "gen_ge", "gen_supports", "gen_hashKey", "gen_cmp_ops"]]
     + ["MetadorModel.Bridge.Metaclass.gen_newRaises"],
@@ -70,9 +76,92 @@ def _group(name):
 
 
 class _EP:
+    """Stand-in for an importlib entry point: has a distribution and can be loaded."""
     class dist:
         name = "vt-pkg"
         version = "0.0.0"
+
+    def __init__(self, name=None, ver=None):
+        self.n, self.v = name, ver
+
+    def load(self):
+        return _plugin_cls(self.n, self.v)
+
+
+def _plugin_cls(name, ver):
+    return type("P", (object,), {"Plugin": type("Plugin", (), {"name": name, "version": tuple(ver)})})
+
+
+HOWS = ["new", "copy", "copy-update", "copy-update-all", "deepcopy", "copy-deep", "pickle", "pickle-copy-update", "parse_obj",
+        "parse_raw", "construct", "validate", "sub", "sub-parse", "sub-copy-update"]
+_sub = {}
+
+
+def _subclass(group):
+    from metador_core.schema.plugins import PluginRef
+    if group not in _sub:
+        _sub[group] = PluginRef._subclass_for(group)
+    return _sub[group]
+
+
+def _derive(how, val, src, srcval):
+    """A reference with the value `val` obtained in the way `how` (from the already used object `src`
+    of value `srcval`, where the way needs a source)."""
+    import copy
+    import pickle
+    from metador_core.schema.plugins import PluginRef
+
+    g, n, v = val[0], val[1], tuple(val[2])
+    diff = {}
+    if src is not None:
+        diff = {k: x for k, x, y in (("group", g, srcval[0]), ("name", n, srcval[1]), ("version", v, tuple(srcval[2]))) if x != y}
+    full = dict(group=g, name=n, version=v)
+    if how == "copy":
+        return src.copy(update=diff) if diff else src.copy()
+    if how == "copy-update":
+        return src.copy(update=diff)
+    if how == "copy-update-all":
+        return src.copy(update=full)
+    if how == "deepcopy":
+        return copy.deepcopy(src).copy(update=diff) if diff else copy.deepcopy(src)
+    if how == "copy-deep":
+        return src.copy(update=diff, deep=True)
+    if how == "pickle":
+        o = pickle.loads(pickle.dumps(src))
+        return o.copy(update=diff) if diff else o
+    if how == "pickle-copy-update":
+        return pickle.loads(pickle.dumps(src)).copy(update=full)
+    if how == "parse_obj":
+        return PluginRef.parse_obj(dict(group=g, name=n, version=list(v)))
+    if how == "parse_raw":
+        return PluginRef.parse_raw(PluginRef(**full).json())
+    if how == "construct":
+        return PluginRef.construct(**full)
+    if how == "validate":
+        return PluginRef.validate(dict(full))
+    if how == "sub":
+        return _subclass(g)(name=n, version=v)
+    if how == "sub-parse":
+        return _subclass(g).parse_obj(dict(name=n, version=list(v)))
+    if how == "sub-copy-update":
+        # a group-bound reference (as handed out by `PluginGroup.PluginRef`), used, then re-targeted
+        sv = tuple(srcval[2]) if srcval and srcval[0] == g else (v[0], v[1], v[2] + 1)
+        sn = srcval[1] if srcval and srcval[0] == g else n
+        o = _subclass(g)(name=sn, version=sv)
+        _use([o])
+        return o.copy(update={k: x for k, x, y in (("name", n, sn), ("version", v, sv)) if x != y})
+    return PluginRef(**full)
+
+
+def _use(objs):
+    """What client code does with references before handing them on: hash, compare, sort, use as keys."""
+    hs = [hash(o) for o in objs]
+    st = set(objs)
+    d = {o: i for i, o in enumerate(objs)}
+    sorted(objs)
+    for o in objs:
+        assert o in st and o in d
+    return hs
 
 
 def impl(case):
@@ -83,42 +172,130 @@ def impl(case):
     kind = case["kind"]
     out, oracle, tags = [], [], []
     if kind == "cmp":
-        refs = [PluginRef(group=g, name=n, version=tuple(v)) for g, n, v in case["refs"]]
-        for a in refs:
-            for b in refs:
+        vals = case["refs"]
+        via = case.get("via") or [["new", None]] * len(vals)
+        key = lambda x: (x.group, x.name, tuple(x.version))  # noqa: E731
+        vkey = lambda v: (v[0], v[1], tuple(v[2]))  # noqa: E731
+        # originals: one object per source value, all used (hashed / compared / keys) before anything is derived
+        srcs = {}
+        for how, sv in via:
+            if sv is not None and vkey(sv) not in srcs:
+                srcs[vkey(sv)] = PluginRef(group=sv[0], name=sv[1], version=tuple(sv[2]))
+        src_hashes = _use(list(srcs.values()))
+        refs = [_derive(how, v, srcs.get(vkey(sv)) if sv is not None else None, sv) for v, (how, sv) in zip(vals, via)]
+        for how, _ in via:
+            if how != "new":
+                tags.append("derived:" + how)
+        for i, a in enumerate(refs):
+            if key(a) != vkey(vals[i]):
+                raise AssertionError("harness: derived reference has the wrong value %r %r" % (key(a), vals[i]))
+            for j, b in enumerate(refs):
                 r = dict(eq=a == b, ge=a >= b, gt=a > b, le=a <= b, lt=a < b, sup=a.supports(b), hash=hash(a) == hash(b))
                 for k, v in r.items():
                     if not isinstance(v, bool):
-                        oracle.append(dict(kind="non-bool-comparison", op=k, a=case["refs"][refs.index(a)], b=case["refs"][refs.index(b)], value=repr(v)))
+                        oracle.append(dict(kind="non-bool-comparison", op=k, a=vals[i], b=vals[j], a_via=via[i], b_via=via[j], value=repr(v)))
                 out.append(" ".join("%s=%s" % (k, "T" if v else "F") for k, v in r.items()))
-                key = lambda x: (x.group, x.name, tuple(x.version))  # noqa: E731
                 exp = dict(eq=key(a) == key(b), ge=key(a) >= key(b), gt=key(a) > key(b), le=key(a) <= key(b), lt=key(a) < key(b),
                            sup=(a.group == b.group and a.name == b.name and a.version[0] == b.version[0] and a.version[1] >= b.version[1]))
                 for k, e in exp.items():
                     if bool(r[k]) != e:
-                        oracle.append(dict(kind="operator-not-lexicographic", op=k, a=[a.group, a.name, list(a.version)], b=[b.group, b.name, list(b.version)], got=repr(r[k])))
+                        oracle.append(dict(kind="operator-not-lexicographic", op=k, a=vals[i], b=vals[j], a_via=via[i], b_via=via[j], got=repr(r[k])))
                 if exp["eq"] and hash(a) != hash(b):
-                    oracle.append(dict(kind="equal-but-different-hash", a=[a.group, a.name, list(a.version)]))
+                    oracle.append(dict(kind="equal-but-different-hash", a=vals[i], b=vals[j], a_via=via[i], b_via=via[j]))
+                if exp["eq"] != (a in {b}) or exp["eq"] != ({b: 1}.get(a) == 1) or exp["eq"] != (a in [b]):
+                    oracle.append(dict(kind="set-membership-inconsistent", a=vals[i], b=vals[j], a_via=via[i], b_via=via[j],
+                                       in_set=a in {b}, in_dict={b: 1}.get(a) == 1, in_list=a in [b]))
+        # every reference against a freshly constructed one of the same value and against the used originals
+        pool_set = set(srcs.values())
+        for i, a in enumerate(refs):
+            f = PluginRef(group=vals[i][0], name=vals[i][1], version=tuple(vals[i][2]))
+            if not (a == f and f == a and a <= f and a >= f and not a < f and not a > f and not a != f):
+                oracle.append(dict(kind="operator-not-lexicographic", op="vs-fresh", a=vals[i], b=vals[i], a_via=via[i], b_via=["new", None], got="differs from an equal fresh reference"))
+            if hash(a) != hash(f):
+                oracle.append(dict(kind="equal-but-different-hash", a=vals[i], b=vals[i], a_via=via[i], b_via=["new", None]))
+            if a not in {f} or f not in {a} or {f: 1}.get(a) != 1 or {a: 1}.get(f) != 1 or (a in pool_set) != (vkey(vals[i]) in srcs):
+                oracle.append(dict(kind="set-membership-inconsistent", a=vals[i], b=vals[i], a_via=via[i], b_via=["new", None]))
+        # the originals are unaffected by having been copied / pickled
+        for (kv, o), h in zip(srcs.items(), src_hashes):
+            f = PluginRef(group=kv[0], name=kv[1], version=kv[2])
+            if hash(o) != h or hash(o) != hash(f) or not o == f:
+                oracle.append(dict(kind="equal-but-different-hash", a=[kv[0], kv[1], list(kv[2])], b=[kv[0], kv[1], list(kv[2])], a_via=["new", None], b_via=["new", None], note="original after use"))
         # sorted() and set membership agree with the specification order
         srt = sorted(refs)
-        ks = [(x.group, x.name, tuple(x.version)) for x in srt]
+        ks = [key(x) for x in srt]
         if ks != sorted(ks):
-            oracle.append(dict(kind="sorted-not-ascending", refs=case["refs"]))
-        if len(set(refs)) != len(set((x.group, x.name, tuple(x.version)) for x in refs)):
-            oracle.append(dict(kind="set-membership-inconsistent", refs=case["refs"]))
+            oracle.append(dict(kind="sorted-not-ascending", refs=vals, via=via))
+        if len(set(refs)) != len(set(key(x) for x in refs)):
+            oracle.append(dict(kind="set-membership-inconsistent", refs=vals, via=via))
+    elif kind == "xproc":
+        # references that were used as keys, pickled, and read by another interpreter (other str hash seed)
+        import os
+        import pickle
+        import subprocess
+        import sys
+        import tempfile
+        refs = [PluginRef(group=g, name=n, version=tuple(v)) for g, n, v in case["refs"]]
+        if case.get("use", True):
+            _use(refs)
+        fd, path = tempfile.mkstemp(suffix=".pkl")
+        try:
+            with os.fdopen(fd, "wb") as f:
+                pickle.dump(refs, f)
+            prog = ("import sys, pickle, json\nsys.path.insert(0, %r)\nimport harness.envshim\n"
+                    "from metador_core.schema.plugins import PluginRef\n"
+                    "refs = pickle.load(open(%r, 'rb'))\nbad = []\n"
+                    "for i, r in enumerate(refs):\n"
+                    "    f = PluginRef(group=r.group, name=r.name, version=r.version)\n"
+                    "    c = r.copy()\n"
+                    "    for how, x in (('unpickled', r), ('unpickled-copy', c)):\n"
+                    "        if not (x == f and f == x and x <= f and x >= f): bad.append([i, how, 'eq'])\n"
+                    "        if hash(x) != hash(f): bad.append([i, how, 'hash'])\n"
+                    "        if x not in {f} or f not in {x} or {f: 1}.get(x) != 1: bad.append([i, how, 'member'])\n"
+                    "print('RESULT ' + json.dumps(bad))\n") % (core.VERIF, path)
+            env = dict(os.environ)
+            env["PYTHONHASHSEED"] = "2" if env.get("PYTHONHASHSEED") == "1" else "1"
+            p = subprocess.run([sys.executable, "-c", prog], env=env, stdout=subprocess.PIPE, stderr=subprocess.PIPE, text=True, timeout=100)
+            res = [l for l in p.stdout.splitlines() if l.startswith("RESULT ")]
+            if p.returncode != 0 or not res:
+                raise RuntimeError("harness: child interpreter failed: %s" % (p.stderr[-600:],))
+            import json
+            for i, how, what in json.loads(res[0][7:]):
+                k = {"eq": "operator-not-lexicographic", "hash": "equal-but-different-hash", "member": "set-membership-inconsistent"}[what]
+                oracle.append(dict(kind=k, a=case["refs"][i], b=case["refs"][i], a_via=[how + "-in-other-process", case["refs"][i]], b_via=["new", None]))
+        finally:
+            os.unlink(path)
+        out = None
+        tags.append("pickle-other-process")
     elif kind == "tbl":
         pg = _group(case["group"])
         registered = []
-        for op in case["ops"]:
+
+        def newest(name, ver):
+            mine = sorted(v for n, v in registered if n == name and (not ver or (v[0] == ver[0] and v[1] >= ver[1])))
+            return mine[-1] if mine else None
+
+        def keyof(op):
+            name, ver = op[1], op[2]
+            if len(op) > 3 and op[3] == "r" and ver:
+                return pg.PluginRef(name=name, version=tuple(ver))
+            return (name, tuple(ver)) if ver else name
+
+        nreg = 0
+        last_reg = max([i for i, o in enumerate(case["ops"]) if o[0] == "reg"], default=-1)
+        for oi, op in enumerate(case["ops"]):
+            if op[0] != "reg" and registered:
+                t = "query-between-registrations" if oi < last_reg else "query-after-registrations"
+                if t not in tags:
+                    tags.append(t)
             if op[0] == "reg":
                 _, via, name, ver = op
                 ver = tuple(ver)
                 if via == "ep":
-                    pg._add_ep(pt.to_ep_name(name, ver), _EP())
+                    pg._add_ep(pt.to_ep_name(name, ver), _EP(name, ver))
                 else:
-                    cls = type("P", (object,), {"Plugin": type("Plugin", (), {"name": name, "version": ver})})
-                    register_in_group(pg, cls, violently=True)
+                    register_in_group(pg, _plugin_cls(name, ver), violently=True)
                 registered.append((name, ver))
+                nreg += 1
                 out.append("ok")
             elif op[0] == "vers":
                 _, name, ver = op
@@ -127,7 +304,7 @@ def impl(case):
                 mine = sorted(v for n, v in registered if n == name)
                 if ver:
                     mine = [v for v in mine if v[0] == ver[0] and v[1] >= ver[1]]
-                if [tuple(r.version) for r in l] != mine:
+                if [tuple(r.version) for r in l] != mine or any(r.name != name for r in l):
                     oracle.append(dict(kind="versions-not-sorted-all", name=name, version=ver, got=[list(r.version) for r in l], expected=[list(v) for v in mine]))
                 if len(mine) > 2:
                     tags.append("versions>2")
@@ -135,16 +312,56 @@ def impl(case):
                 _, name, ver = op
                 r = pg.resolve(name, tuple(ver) if ver else None)
                 out.append("res " + (vs(r.version) if r is not None else "none"))
-                mine = sorted(v for n, v in registered if n == name and (not ver or (v[0] == ver[0] and v[1] >= ver[1])))
-                exp = mine[-1] if mine else None
+                exp = newest(name, ver)
                 got = tuple(r.version) if r is not None else None
-                if got != exp:
+                if got != exp or (r is not None and r.name != name):
                     oracle.append(dict(kind="resolve-not-newest-supporting", name=name, version=ver, got=got, expected=exp))
                 tags.append("resolve-hit" if exp else "resolve-none")
+            elif op[0] == "get":
+                name, ver = op[1], op[2]
+                k = keyof(op)
+                c = pg.get(k) if not isinstance(k, str) else pg.get(name, tuple(ver) if ver else None)
+                got = (c.Plugin.name, tuple(c.Plugin.version)) if c is not None else None
+                out.append("get " + (vs(got[1]) if got else "none"))
+                exp = newest(name, ver)
+                if got != ((name, exp) if exp else None):
+                    oracle.append(dict(kind="get-not-newest-supporting", name=name, version=ver, got=got, expected=exp))
+                tags.append("get-hit" if exp else "get-none")
+            elif op[0] == "item":
+                name, ver = op[1], op[2]
+                try:
+                    c = pg[keyof(op)]
+                    got = (c.Plugin.name, tuple(c.Plugin.version)) if c is not None else None
+                    out.append("item " + (vs(got[1]) if got else "none"))
+                except KeyError:
+                    got = "KeyError"
+                    out.append("item KeyError")
+                exp = newest(name, ver)
+                exact = any(n == name and (not ver or v == tuple(ver)) for n, v in registered)
+                # judged only where the statement speaks: a registered (name, version) resolves to the newest supporting one
+                if (got not in ("KeyError", None) and got != (name, exp)) or (exact and got in ("KeyError", None)):
+                    oracle.append(dict(kind="get-not-newest-supporting", via="[]", name=name, version=ver, got=got, expected=exp))
             elif op[0] == "has":
-                _, name, ver = op
-                key = (name, tuple(ver)) if ver else name
-                out.append("has " + ("T" if key in pg else "F"))
+                name, ver = op[1], op[2]
+                got = keyof(op) in pg
+                out.append("has " + ("T" if got else "F"))
+                exact = any(n == name and (not ver or v == tuple(ver)) for n, v in registered)
+                anyv = any(n == name for n, v in registered)
+                # every registered version is listed; nothing is listed for a name without registrations
+                if (exact and not got) or (not anyv and got):
+                    oracle.append(dict(kind="membership-not-registered-versions", name=name, version=ver, got=got))
+            elif op[0] == "keys":
+                name = op[1]
+                ks = [(r.name, tuple(r.version)) for r in pg.keys()]
+                sel = [k for k in ks if name is None or k[0] == name]
+                out.append(" ".join(["keys"] + ["%s@%s" % (hx(n), vs(v)) for n, v in sel]))
+                for nm in sorted(set(n for n, _ in registered) | set(n for n, _ in ks)):
+                    if name is not None and nm != name:
+                        continue
+                    if [v for n, v in ks if n == nm] != sorted(v for n, v in registered if n == nm):
+                        oracle.append(dict(kind="keys-not-sorted-all", name=nm, got=[list(v) for n, v in ks if n == nm], expected=[list(v) for v in sorted(v for n, v in registered if n == nm)]))
+                        break
+                tags.append("keys")
     elif kind == "ep":
         for op in case["ops"]:
             if op[0] == "toep":
@@ -236,6 +453,8 @@ def lines(case):
         for op in case["ops"]:
             if op[0] == "reg":
                 L.append("reg %s %s" % (hx(op[2]), vs(op[3])))
+            elif op[0] == "keys":
+                L.append("keys %s" % (hx(op[1]) if op[1] else "-"))
             else:
                 L.append("%s %s %s" % (op[0], hx(op[1]), vs(op[2])))
     elif kind == "ep":
@@ -250,7 +469,7 @@ def lines(case):
 def compare(case, ir, mo):
     if case["kind"] == "tbl":
         return core.default_compare(case, dict(out=["ok"] + ir["out"]), mo)
-    if case["kind"] == "marked":
+    if case["kind"] in ("marked", "xproc"):
         return None
     return core.default_compare(case, ir, mo)
 
@@ -286,6 +505,64 @@ def rand_ver(rng):
     return [rng.choice([0, 1, 2, 9, 10, 11, 100]) for _ in range(3)]
 
 
+def with_via(rng, vals):
+    """A cmp case whose references are obtained in random ways from random used sources (sources are drawn from
+    the case's own values and their neighbours, so that zero, one or several fields differ)."""
+    via = []
+    for v in vals:
+        how = rng.choice(HOWS)
+        r = rng.random()
+        if r < 0.25:
+            sv = v
+        elif r < 0.6:
+            sv = [v[0], v[1], [v[2][0], (v[2][1] + rng.choice([0, 1])) % 3, (v[2][2] + 1) % 3]]
+        elif r < 0.8:
+            sv = [v[0], "ab" if v[1] != "ab" else "aa", v[2]]
+        else:
+            sv = rng.choice(vals)
+        via.append([how, sv])
+    return dict(kind="cmp", refs=vals, via=via)
+
+
+def rand_query(rng, names, pool_v, requests=None):
+    n = rng.choice(names)
+    req = lambda: rng.choice(requests) if requests is not None else rng.choice([None, rng.choice(pool_v), rand_ver(rng)])  # noqa: E731
+    k = rng.choice(["vers", "vers", "res", "res", "res", "get", "get", "item", "has", "keys"])
+    if k == "keys":
+        return ["keys", rng.choice([None, n])]
+    if k in ("has", "get", "item"):
+        return [k, n, req(), rng.choice(["t", "r"])]
+    return [k, n, req()]
+
+
+def stepwise_case(rng):
+    """Registrations of a few versions (of one or two names, each step through either path); a fixed battery
+    of queries runs at random points before, between and after them (so every query is repeated after the
+    table has changed)."""
+    names = ["vt.aa", "vt.ab"][: rng.randrange(1, 3)]
+    major = rng.choice([0, 1, 9])
+    pool_v = []
+    for _ in range(rng.randrange(2, 6)):
+        pool_v.append(rng.choice([[major, rng.choice([0, 1, 2, 9, 10]), rng.choice([0, 1, 10])], rand_ver(rng)]))
+    requests = [None] + [rng.choice(pool_v) for _ in range(2)] + [[v[0], max(0, v[1] - 1), 0] for v in pool_v[:2]] + [[pool_v[0][0], pool_v[0][1] + 1, 0]]
+    bat = [rand_query(rng, names, pool_v, requests) for _ in range(rng.randrange(2, 7))]
+    ops = list(bat) if rng.random() < 0.5 else []
+    nreg = rng.randrange(2, 6)
+    for i in range(nreg):
+        ops.append(["reg", rng.choice(["ep", "manual"]), rng.choice(names), rng.choice(pool_v)])
+        if rng.random() < 0.75 or i == nreg - 1:
+            ops += bat
+    return dict(kind="tbl", group=rng.choice(["schema", "vtgrp"]), ops=ops)
+
+
+def extra_cases(ctx):
+    """Oracle-only cases (no model counterpart): marked-base probe on the real plugin system, references
+    pickled into another interpreter."""
+    rng = ctx.rng
+    refs = [[rng.choice(GROUPS), rng.choice(NAMES), list(rng.choice(VERS))] for _ in range(6)]
+    return [dict(kind="marked", names=["core.file", "core.dir", "core.bib"]), dict(kind="xproc", refs=refs, use=True)]
+
+
 def gen_cases(ctx):
     rng = ctx.rng
     cases = []
@@ -294,6 +571,8 @@ def gen_cases(ctx):
     if ctx.quick:
         for _ in range(40):
             cases.append(dict(kind="cmp", refs=rng.sample(allrefs, 12)))
+        for _ in range(30):
+            cases.append(with_via(rng, rng.sample(allrefs, 10)))
     else:
         # every ordered pair of the 108-element space appears in some chunk: pair up blocks of 12
         blocks = [allrefs[i:i + 12] for i in range(0, len(allrefs), 12)]
@@ -301,11 +580,21 @@ def gen_cases(ctx):
             for j in range(i, len(blocks)):
                 cases.append(dict(kind="cmp", refs=blocks[i] + (blocks[j] if j != i else [])))
         ctx.exhaustive_spaces.append("all ordered pairs of 108 references (2 groups x 2 names x 3^3 versions): comparison operators, supports, hash")
+        for _ in range(400):
+            cases.append(with_via(rng, rng.sample(allrefs, 10)))
+        # every way of obtaining a reference x which field(s) differ from the used source x every other way
+        tgt = ["g", "aa", [1, 1, 1]]
+        srcvals = [["g", "aa", [1, 1, 1]], ["g", "aa", [1, 2, 1]], ["g", "ab", [1, 1, 1]], ["h", "aa", [1, 1, 1]], ["h", "ab", [2, 0, 0]]]
+        for how in HOWS:
+            for sv in srcvals:
+                cases.append(dict(kind="cmp", refs=[tgt] * len(HOWS) + [sv], via=[[how, sv]] + [[h2, sv] for h2 in HOWS if h2 != how] + [["new", None]]))
+        ctx.exhaustive_spaces.append("every way of obtaining a reference (%d ways) x 5 kinds of used source (same value / other version / name / group / all) vs. every other way" % len(HOWS))
     # wide versions / names of different length / prefix-related names
     wide = [[g, n, v] for g in ["g", "gg"] for n in ["aa", "aaa", "ab", "b0"] for v in ([1, 9, 0], [1, 10, 0], [1, 2, 10], [1, 2, 9], [10, 0, 0], [9, 9, 9])]
     for _ in range(6 if ctx.quick else 40):
         cases.append(dict(kind="cmp", refs=rng.sample(wide, 10)))
-    # version tables
+        cases.append(with_via(rng, rng.sample(wide, 8)))
+    # version tables: random interleavings of registrations (both paths) and queries
     nt = 60 if ctx.quick else 1500
     for i in range(nt):
         names = ["vt.aa", "vt.ab", "vt.aa-b"][: rng.randrange(1, 4)]
@@ -316,27 +605,37 @@ def gen_cases(ctx):
             n = rng.choice(names)
             if r < 0.5:
                 ops.append(["reg", rng.choice(["ep", "manual"]), n, rng.choice(pool_v)])
-            elif r < 0.65:
-                ops.append(["vers", n, rng.choice([None, rng.choice(pool_v), rand_ver(rng)])])
-            elif r < 0.9:
-                ops.append(["res", n, rng.choice([None, rng.choice(pool_v), rand_ver(rng)])])
             else:
-                ops.append(["has", n, rng.choice([None, rng.choice(pool_v)])])
+                ops.append(rand_query(rng, [n], pool_v))
         ops.append(["vers", names[0], None])
         ops.append(["res", names[0], rng.choice(pool_v)])
         cases.append(dict(kind="tbl", group=rng.choice(["schema", "vtgrp"]), ops=ops))
-    if not ctx.quick:
-        # all subsets x all registration orders of <= 4 versions of one name, both paths
-        import itertools as it
-        base = [[1, 0, 0], [1, 2, 0], [1, 10, 1], [2, 0, 0]]
-        for k in range(1, 5):
-            for sub in it.combinations(base, k):
-                for perm in it.permutations(sub):
-                    for via in ("ep", "manual"):
-                        ops = [["reg", via, "vt.aa", v] for v in perm]
-                        ops += [["vers", "vt.aa", None]] + [["res", "vt.aa", q] for q in ([1, 0, 0], [1, 1, 0], [1, 11, 0], [2, 0, 0], [3, 0, 0], None)]
-                        cases.append(dict(kind="tbl", group="schema", ops=ops))
-        ctx.exhaustive_spaces.append("all subsets x all registration orders of <=4 versions of one plugin name, both registration paths, 6 resolve requests each")
+    # query - register - query: the same battery of queries before, between and after the registrations
+    for i in range(40 if ctx.quick else 600):
+        cases.append(stepwise_case(rng))
+    base = [[1, 0, 0], [1, 2, 0], [1, 10, 1], [2, 0, 0]]
+    full = []
+    # all subsets x all registration orders of <= 4 versions of one name x every assignment of the two
+    # registration paths to the steps; the full battery of queries before the first and after every step
+    import itertools as it
+    for k in range(1, 5):
+        for sub in it.combinations(base, k):
+            for perm in it.permutations(sub):
+                for paths in it.product(("ep", "manual"), repeat=k):
+                    bat = [["vers", "vt.aa", None], ["keys", "vt.aa"], ["get", "vt.aa", None]]
+                    for q in ([1, 0, 0], [1, 1, 0], [1, 11, 0], [2, 0, 0], [3, 0, 0], None):
+                        bat += [["res", "vt.aa", q], ["vers", "vt.aa", q]]
+                    bat += [["get", "vt.aa", [1, 1, 0]], ["item", "vt.aa", [1, 2, 0]], ["has", "vt.aa", [1, 2, 0]], ["has", "vt.aa", None]]
+                    ops = list(bat)
+                    for via, v in zip(paths, perm):
+                        ops += [["reg", via, "vt.aa", v]] + bat
+                    full.append(dict(kind="tbl", group="schema", ops=ops))
+    if ctx.quick:
+        cases += rng.sample(full, 40)
+    else:
+        cases += full
+        ctx.exhaustive_spaces.append("all subsets x all registration orders of <=4 versions of one plugin name x every assignment of the two registration paths "
+                                     "to the steps; 19 queries (versions/resolve/get/[]/in/keys, 6 requests) before the first and after every registration")
     # entry point names
     ne = 40 if ctx.quick else 600
     for i in range(ne):
@@ -357,27 +656,36 @@ def gen_cases(ctx):
 
 
 def run(ctx):
-    ctx.rule = ("cases: (cmp) sets of references, all ordered pairs compared with ==,>=,>,<=,<,supports,hash; (tbl) registration/"
-                "query sequences on a synthetic PluginGroup via _add_ep and register_in_group; (ep) to_ep_name/from_ep_name on grammar-generated "
+    ctx.rule = ("cases: (cmp) sets of references -- constructed, or derived (copy/copy(update)/deepcopy/pickle/parse_obj/parse_raw/construct/validate/"
+                "group subclass) from originals that were hashed, compared and used as keys before -- all ordered pairs compared with ==,>=,>,<=,<,supports,hash, "
+                "set/dict/list membership, each also against a fresh equal reference; (xproc) used references pickled into an interpreter with another str hash seed; "
+                "(tbl) registration/query sequences on one synthetic PluginGroup via _add_ep and register_in_group with versions/resolve/get/[]/in/keys "
+                "before, between and after the registrations; (ep) to_ep_name/from_ep_name on grammar-generated "
                 "and mutated names; (marked) subclassing version-less plugin handles. Non-trivial = tagged: >2 versions registered for the queried name, "
-                "resolve with/without supporting version, valid/invalid entry point names, marked-class check.")
+                "resolve/get with/without supporting version, queries between registrations, derived references, valid/invalid entry point names, marked-class check.")
     ctx.trusted.append("harness/translate.py (Python ast -> Lean) for PluginRef.__eq__/__ge__/supports/__hash__; bridge theorems re-checked on every run")
     ctx.assumptions += ["Python str comparison = lexicographic by code point = Lean String order (ASCII names used)",
                         "functools.total_ordering derives <,<=,> from __ge__ as in CPython's functools.py (modelled in Plugin.ltFrom/leFrom/gtFrom; compared on every pair)",
                         "list.sort() is a stable sort using only < (modelled as stable insertion sort)"]
     cases = core.load_corpus(ID) + gen_cases(ctx)
     ctx.correspond("plugin-model", MOD, [c for c in cases if c["kind"] != "marked"], lines, "drv_plg", compare=compare, timeout=60)
-    # marked-base check (oracle only, real plugin system)
-    res = __import__("harness.pool", fromlist=["x"]).run(MOD, "impl", [dict(kind="marked", names=["core.file", "core.dir", "core.bib"])], timeout=120, workers=1)
-    r = res[0]
-    if "ok" in r:
-        for d in r["ok"]["oracle"]:
-            ctx.oracle_hit(dict(kind="marked"), d)
-        ctx.note_case(dict(kind="marked"), ["marked"])
-    elif "timeout" in r:
-        raise lean.InfraError("marked-base probe timed out")
-    else:
-        raise lean.InfraError("marked-base probe crashed: %s" % r)
+    # oracle-only cases (real plugin system / second interpreter)
+    ex = extra_cases(ctx)
+    res = __import__("harness.pool", fromlist=["x"]).run(MOD, "impl", ex, timeout=120, workers=2)
+    for c, r in zip(ex, res):
+        if "ok" in r:
+            for d in r["ok"]["oracle"]:
+                ctx.oracle_hit(c, d)
+            ctx.note_case(c, r["ok"]["tags"])
+        elif "timeout" in r:
+            raise lean.InfraError("%s probe timed out" % c["kind"])
+        elif "crash" in r and core.crash_in_real_code(r):
+            ctx.oracle_hit(c, {"kind": "unexpected-exception", "error": r["crash"][:300], "where": core.crash_site(r)})
+        elif ctx.oracle_hits:
+            # failing inputs were already found on the real code; a probe that cannot even start must not hide them
+            ctx.notes.append("%s probe could not run: %s" % (c["kind"], str(r.get("crash"))[:300]))
+        else:
+            raise lean.InfraError("%s probe crashed: %s" % (c["kind"], r))
 
 
 def signature(case, detail):
@@ -386,19 +694,32 @@ def signature(case, detail):
 
 def shrink(ctx, case, detail):
     from .. import pool
-    if case.get("kind") in ("tbl", "ep") and len(case.get("ops", [])) > 1:
-        want = detail.get("kind") if isinstance(detail, dict) else None
-
-        def fails(ops):
-            r = pool.run_one(MOD, "impl", dict(case, ops=ops), timeout=60)
-            return "ok" in r and any(d.get("kind") == want for d in r["ok"]["oracle"])
-        ops = core.ddmin(case["ops"], fails, max_tests=60)
-        r = pool.run_one(MOD, "impl", dict(case, ops=ops), timeout=60)
-        ds = [d for d in r.get("ok", {}).get("oracle", []) if d.get("kind") == want]
-        if ds:
-            return dict(case, ops=ops), ds[0]
-    if case.get("kind") == "cmp" and isinstance(detail, dict) and "a" in detail and "b" in detail:
-        return dict(kind="cmp", refs=[detail["a"], detail["b"]]), detail
+    want = detail.get("kind") if isinstance(detail, dict) else None
+    with pool.Session(MOD, "impl") as ses:
+        def hits(cand):
+            r = ses.call(cand, timeout=120 if cand.get("kind") == "xproc" else 60)
+            return [d for d in (r.get("ok") or {}).get("oracle", []) if d.get("kind") == want]
+        if case.get("kind") in ("tbl", "ep") and len(case.get("ops", [])) > 1:
+            ops = core.ddmin(case["ops"], lambda ops: bool(hits(dict(case, ops=ops))), max_tests=150)
+            ds = hits(dict(case, ops=ops))
+            if ds:
+                return dict(case, ops=ops), ds[0]
+        if case.get("kind") == "cmp" and isinstance(detail, dict) and "a" in detail and "b" in detail:
+            small = dict(kind="cmp", refs=[detail["a"], detail["b"]])
+            if "via" in case:
+                small["via"] = [detail.get("a_via") or ["new", None], detail.get("b_via") or ["new", None]]
+            cands = [small]
+            if "via" in case and detail["a"] == detail["b"]:
+                cands.insert(0, dict(kind="cmp", refs=[detail["a"]], via=[small["via"][0]]))
+            for cand in cands:
+                ds = hits(cand)
+                if ds:
+                    return cand, ds[0]
+        if case.get("kind") == "xproc" and isinstance(detail, dict) and "a" in detail:
+            cand = dict(case, refs=[detail["a"]])
+            ds = hits(cand)
+            if ds:
+                return cand, ds[0]
     return case, detail
 
 
@@ -409,8 +730,8 @@ def search(ctx):
     import random
     for s in range(1, 4):
         sub = core.Ctx(ID, "thorough" if s == 3 else "quick", ctx.seed + 7919 * s)
-        cases = gen_cases(sub)
-        res = pool.run(MOD, "impl", cases, timeout=60)
+        cases = extra_cases(sub) + gen_cases(sub)
+        res = pool.run(MOD, "impl", cases, timeout=120)
         ctx.search_log.append("seed %d: %d cases, oracle only" % (sub.seed, len(cases)))
         for c, r in zip(cases, res):
             if "ok" in r and r["ok"]["oracle"]:
@@ -426,6 +747,6 @@ def replay(ctx, rep):
         return 0
     r = pool.run_one(MOD, "impl", case, timeout=120)
     print("implementation:", core.canon(r)[:3000])
-    if case.get("kind") != "marked":
+    if case.get("kind") not in ("marked", "xproc"):
         print("model:", lean.run_driver("drv_plg", [lines(case)]))
     return 1 if ("ok" in r and r["ok"]["oracle"]) else 0
